@@ -20,7 +20,8 @@ Definition H_rt (deflate : N -> list N -> list N) (inflate : list N -> N -> opti
 Definition H_eof (inflate : list N -> N -> option (list N)) : Prop := inflate [3; 0] 0 = Some [].
 
 (* ROUND TRIP.  For every DEFLATE implementation satisfying the hypotheses, every compression
-   level, every script of write / write_all / flush calls (each with its own buffer) and every way
+   level, every script of write / write_all / flush / try_finish calls (each with its own buffer;
+   try_finish may occur anywhere, the writer stays usable after it) and every way
    of disposing of the writer (finish | try_finish+into_inner | drop | try_finish then drop):
    read_to_end of a reader over the sink returns exactly the concatenation of the bytes the
    calls accepted, with result Ok. *)
@@ -33,26 +34,56 @@ Theorem c01_roundtrip :
 Proof. exact writer_reader_roundtrip. Qed.
 Print Assumptions c01_roundtrip.
 
-(* WELL-FORMED OUTPUT.  The sink is the frames of a list of blocks followed by the 28-byte EOF
-   marker (twice for try_finish-then-drop); the blocks are non-empty, at most 65495 bytes, and
-   concatenate to the accepted bytes; each frame is 26 + |cdata| <= 65536 bytes long, its BSIZE
-   field + 1 is its own length, its first 16 bytes are the gzip/BC constants, it parses (by the
-   reader's parse_frame) to its cdata, CRC32 = crc32 block and ISIZE = |block|, and its cdata
-   inflate to the block.  No call fails or panics and finish returns Ok. *)
+(* WELL-FORMED OUTPUT, scripts of write / write_all / flush.  The sink is the frames of a list of
+   blocks followed by EXACTLY ONE 28-byte EOF marker, for every ending -- including try_finish
+   followed by drop (fix be585e3).  The blocks are non-empty, at most 65495 bytes, and concatenate
+   to the accepted bytes; each frame is 26 + |cdata| <= 65536 bytes long, its BSIZE field + 1 is
+   its own length, its first 16 bytes are the gzip/BC constants, it parses (by the reader's
+   parse_frame) to its cdata, CRC32 = crc32 block and ISIZE = |block|, and its cdata inflate to
+   the block.  No call fails or panics and the ending returns Ok. *)
 Theorem c01_wellformed :
   forall deflate lvl, H_l0 deflate ->
   forall inflate, H_rt deflate inflate ->
-  forall ops e,
+  forall ops e, no_try_finish ops ->
     let o := run_script deflate lvl ops e in
     exists blocks,
-      o_sink o = frames_bytes (map (wframe deflate lvl) blocks)
-                 ++ concat (repeat eof_block (n_eof e)) /\
+      o_sink o = frames_bytes (map (wframe deflate lvl) blocks) ++ eof_block /\
       Forall (frame_wf deflate lvl inflate) blocks /\
       concat blocks = accepted ops (o_results o) /\
       o_end o = Ok tt /\
       Forall (fun r => is_ok (fst r)) (o_results o) /\ length (o_results o) = length ops.
-Proof. exact writer_wellformed_full. Qed.
+Proof. exact writer_wellformed_single. Qed.
 Print Assumptions c01_wellformed.
+
+(* WELL-FORMED OUTPUT, histories that also call try_finish in the middle (write, try_finish,
+   write, drop ...).  The sink is a non-empty sequence of SEGMENTS, each the frames of a list of
+   blocks followed by one EOF marker: frames.., EOF, frames.., EOF.  Only the first segment may
+   have no block (try_finish on a fresh writer), so two markers are never adjacent and the file
+   ends with exactly one; try_finish on a finished stream writes nothing.  All blocks are
+   well-formed frames as above and concatenate to the accepted bytes. *)
+Theorem c01_wellformed_segments :
+  forall deflate lvl, H_l0 deflate ->
+  forall inflate, H_rt deflate inflate ->
+  forall ops e,
+    let o := run_script deflate lvl ops e in
+    exists segs,
+      o_sink o = segs_bytes deflate lvl segs /\ segs <> [] /\ tail_nonempty segs /\
+      Forall (Forall (frame_wf deflate lvl inflate)) segs /\
+      concat (concat segs) = accepted ops (o_results o) /\
+      o_end o = Ok tt /\
+      Forall (fun r => is_ok (fst r)) (o_results o) /\ length (o_results o) = length ops /\
+      (no_try_finish ops -> exists blocks, segs = [blocks]).
+Proof. exact writer_wellformed_full. Qed.
+Print Assumptions c01_wellformed_segments.
+
+Theorem c01_segments_unfold :
+  forall deflate lvl segs,
+    segs_bytes deflate lvl segs =
+      concat (map (fun seg => frames_bytes (map (wframe deflate lvl) seg) ++ eof_block) segs) /\
+    (tail_nonempty segs <-> match segs with [] => True | _ :: t => Forall (fun s => s <> []) t end) /\
+    (forall ops, no_try_finish ops <-> Forall (fun o => o <> OTryFinish) ops).
+Proof. intros deflate lvl segs. repeat split; intros H; exact H. Qed.
+Print Assumptions c01_segments_unfold.
 
 (* frame_wf spelled out (so that the statement above can be read without the theories) *)
 Theorem c01_frame_wf_unfold :
@@ -71,11 +102,11 @@ Print Assumptions c01_frame_wf_unfold.
 (* Write::write accepts exactly min(65495 - staged, |buf|) bytes and keeps the invariant *)
 Theorem c01_write_amt :
   forall deflate lvl, H_l0 deflate ->
-  forall st blocks buf, inv deflate lvl st blocks ->
-    exists st' blocks',
+  forall st closed cur buf, inv deflate lvl st closed cur ->
+    exists st' cur',
       let amt := N.min (65495 - lenN (w_staging st)) (lenN buf) in
-      write deflate lvl st buf = (st', Ok amt) /\ inv deflate lvl st' blocks' /\
-      content st' blocks' = content st blocks ++ firstn (N.to_nat amt) buf.
+      write deflate lvl st buf = (st', Ok amt) /\ inv deflate lvl st' closed cur' /\
+      content st' closed cur' = content st closed cur ++ firstn (N.to_nat amt) buf.
 Proof. exact write_inv. Qed.
 Print Assumptions c01_write_amt.
 
@@ -153,6 +184,15 @@ Example c01_example :
   let o := run_script toy_deflate 6
              [OWrite [110; 111]; OFlush; OFlush; OWriteAll [111; 100; 108; 101; 115]] ETryFinishDrop in
   o_results o = [(Ok (Some 2), Ok 2); (Ok None, Ok 1900544); (Ok None, Ok 1900544); (Ok None, Ok 1900549)] /\
-  o_end o = Ok tt /\ o_pos o = Some 89 /\ lenN (o_sink o) = 117 /\
+  o_end o = Ok tt /\ o_pos o = Some 89 /\ lenN (o_sink o) = 89 /\
   reader_read_to_end toy_inflate (o_sink o) = ([110; 111; 111; 100; 108; 101; 115], Ok tt).
+Proof. vm_compute. repeat split; reflexivity. Qed.
+
+(* write, try_finish, try_finish, write, drop: frames, EOF, frames, EOF (29 + 28 + 29 + 28 bytes) *)
+Example c01_example_reopened :
+  let o := run_script toy_deflate 6 [OWriteAll [1; 2]; OTryFinish; OTryFinish; OWrite [3; 4]] EDrop in
+  o_sink o = frame_bytes [1; 1; 2] (crc32 [1; 2]) 2 ++ eof_block
+             ++ frame_bytes [1; 3; 4] (crc32 [3; 4]) 2 ++ eof_block /\
+  lenN (o_sink o) = 114 /\
+  reader_read_to_end toy_inflate (o_sink o) = ([1; 2; 3; 4], Ok tt).
 Proof. vm_compute. repeat split; reflexivity. Qed.
